@@ -34,11 +34,37 @@ def fresh_digests(prop, seed, lo, hi, hashseed):
     return json.loads(p.stdout.strip().splitlines()[-1])
 
 
+def _minimise_job(args):
+    mod, rec, fp = args
+    return mod.minimise(rec, fp)
+
+
+def _digests_job(args):
+    mod, seed, lo, hi = args
+    return mod.digests(seed, lo, hi)
+
+
 def determinism_check(mod, seed, n, hashseed=12345):
-    a = mod.digests(seed, 0, n)
+    # the parent never executes library code itself (children are forked from a clean state)
+    a = core.in_child(_digests_job, (mod, seed, 0, n), 900)
     b = fresh_digests(mod.PROP, seed, 0, n, hashseed)
     bad = [i for i in range(n) if a[i] != b[i]]
     return {"runs_compared": n, "mismatches": len(bad), "first_mismatch": bad[:3], "other_pythonhashseed": hashseed}
+
+
+def fresh_mkreplay(prop, job, dst):
+    """Build the replay file in a fresh interpreter (so its digest is that of a clean process)."""
+    src = dst + ".job"
+    core.write_json(src, job)
+    cmd = [sys.executable, "-m", "tlsim", "mkreplay", prop, src, dst]
+    p = subprocess.run(cmd, cwd=core.VERIF_DIR, env=_fresh_env(11), capture_output=True, text=True, timeout=900)
+    try:
+        os.remove(src)
+    except OSError:
+        pass
+    if p.returncode not in (0, 3):
+        raise HarnessError(f"mkreplay failed: {(p.stdout + p.stderr)[-1500:]}")
+    return p.returncode == 0
 
 
 def fresh_replay(path):
@@ -109,21 +135,46 @@ def drive(mod, tier):
     new = 0
     harness_err = False
     reported = []
-    for fp in sorted(by_fp):
+    n_min = 0
+    n_new = 0
+    MAX_MIN = core.env_int("VERIF_MAX_MINIMISE", 6)  # fingerprints minimised in full
+    MAX_REPORT = core.env_int("VERIF_MAX_REPORT", 25)  # fingerprints reported with their own replay file
+    t_report = time.time()
+    for fp in sorted(by_fp, key=lambda f: (by_fp[f][0], f)):
         run, text, rec = by_fp[fp]
         if fp in known:
             print(f"KNOWN-FINDING: property={prop} {fp}: {known[fp].get('what', text)} (seen in {per_fp.get(fp, 1)} runs, first run {run})")
             reported.append({"fingerprint": fp, "status": "known", "runs": per_fp.get(fp, 1)})
             continue
-        try:
-            small = mod.minimise(rec, fp)
-            rp = mod.make_replay(small, fp, seed, run)
-        except HarnessError as e:
-            print(f"HARNESS-ERROR property={prop} minimisation failed for {fp}: {e}")
-            harness_err = True
+        n_new += 1
+        if n_new > MAX_REPORT:
+            new += 1
+            reported.append({"fingerprint": fp, "status": "new-not-minimised", "runs": per_fp.get(fp, 1)})
             continue
         path = core.replay_path(prop, seed, run, "-" + "".join(c if c.isalnum() else "_" for c in fp)[:60])
-        core.write_json(path, rp)
+        try:
+            small = None
+            if n_min < MAX_MIN and time.time() - t_report < 600:
+                n_min += 1
+                try:
+                    small = core.in_child(_minimise_job, (mod, rec, fp), 900)
+                except HarnessError:
+                    small = None  # e.g. needs earlier calls in the same process: fall through
+            made = small is not None and fresh_mkreplay(prop, dict(rec=small, fp=fp, seed=seed, run=run), path)
+            if not made:
+                made = fresh_mkreplay(prop, dict(rec=rec, fp=fp, seed=seed, run=run), path)
+            if not made:
+                # the violation needs the calls made by earlier runs of the same chunk (hidden process state)
+                lo = (run // chunk) * chunk
+                made = fresh_mkreplay(prop, dict(prefix=dict(seed=seed, lo=lo, run=run), fp=fp, text=text), path)
+            if not made:
+                raise HarnessError("violation seen in the batch could not be reproduced in a fresh process")
+            with open(path) as f:
+                rp = json.load(f)
+        except HarnessError as e:
+            print(f"HARNESS-ERROR property={prop} could not build a replay for {fp}: {e}")
+            harness_err = True
+            continue
         ok, out = fresh_replay(path)
         if not ok:
             print(f"HARNESS-ERROR property={prop} violation {fp} did not replay in a fresh process: {out}")
@@ -134,6 +185,9 @@ def drive(mod, tier):
         print(f"  fingerprint={fp} :: {rp.get('violation', text)} (seen in {per_fp.get(fp, 1)} runs)")
         reported.append({"fingerprint": fp, "status": "new", "runs": per_fp.get(fp, 1), "replay": path})
 
+    if n_new > MAX_REPORT:
+        print(f"  (+{n_new - MAX_REPORT} further new fingerprint(s) counted but not written out individually: "
+              + ", ".join(r["fingerprint"] for r in reported if r["status"] == "new-not-minimised")[:600] + ")")
     wall = time.time() - t0
     cov = mod.coverage(agg, wall)
     cov["samples"] = agg["samples"] or [{"note": "no sample collected"}]
